@@ -102,7 +102,14 @@ class Facts:
                         kwargs[kw.arg] = self._fold_arg(kw.value)
                 if len(value.args) > 1:
                     raise AnalysisError('partial binding {} pre-binds positional arguments'.format(name))
-                self.partials[name] = Partial(name, value.args[0].id, kwargs, st)
+                base = value.args[0].id
+                if base in self.partials:
+                    # partial of a partial: functools flattens it (keywords of the outer one win)
+                    inner = self.partials[base]
+                    merged = dict(inner.kwargs)
+                    merged.update(kwargs)
+                    kwargs, base = merged, inner.func
+                self.partials[name] = Partial(name, base, kwargs, st)
                 return
             if isinstance(value.func, ast.Name) and value.func.id in self.funcs and not value.keywords:
                 try:
@@ -171,6 +178,17 @@ class Facts:
                       and isinstance(st.targets[0].value, ast.Name) and st.targets[0].value.id == 'self'):
                     src = st.value.id if isinstance(st.value, ast.Name) else None
                     order.append((st.targets[0].attr, src))
+                elif (isinstance(st, ast.Assign) and len(st.targets) == 1 and isinstance(st.targets[0], (ast.Tuple, ast.List))
+                      and isinstance(st.value, (ast.Tuple, ast.List)) and len(st.targets[0].elts) == len(st.value.elts)):
+                    # self.a, self.b = a, b : targets are stored left to right
+                    for t, v in zip(st.targets[0].elts, st.value.elts):
+                        if isinstance(t, ast.Attribute) and isinstance(t.value, ast.Name) and t.value.id == 'self':
+                            order.append((t.attr, v.id if isinstance(v, ast.Name) else None))
+                elif isinstance(st, ast.Assign) and len(st.targets) > 1 and all(
+                        isinstance(t, ast.Attribute) and isinstance(t.value, ast.Name) and t.value.id == 'self' for t in st.targets):
+                    # self.a = self.b = v : targets are stored left to right
+                    for t in st.targets:
+                        order.append((t.attr, st.value.id if isinstance(st.value, ast.Name) else None))
             ci.attr_order = order
         args_m = ci.methods.get('args')
         if args_m is not None:
